@@ -1930,6 +1930,232 @@ def gen_tick_plan():
 GENERATORS["TickPlan.lean"] = gen_tick_plan
 
 
+# ---------------------------------------------------------------------------------------------------------------------------
+# matcher/src/lib.rs: the dispatch of the three `*_impl` entry points (which routine runs on which argument shape, with which
+# window arguments).  A small statement translator: `if c { ..return.. }`, `if let &[needle] = needle { .. }`, `assert!(..);`,
+# `let (a, b) = self.f(..)?;`, `let x = self.f(..);`, `return e;`, `match (h, n) { (Utf32Str::A(..), Utf32Str::B(..)) => {..} .. }`.
+
+DISPATCH_NON_NUMERIC = {"haystack", "haystack_", "needle", "needle_", "indices", "AsciiChar::cast(haystack)", "AsciiChar::cast(needle)",
+                        "needle as char"}
+
+
+def _close(s, i, op="{", cl="}"):
+    """index of the bracket closing the one at s[i]"""
+    depth = 0
+    for j in range(i, len(s)):
+        if s[j] == op:
+            depth += 1
+        elif s[j] == cl:
+            depth -= 1
+            if depth == 0:
+                return j
+    raise TranslateError("unbalanced brackets in a dispatch function")
+
+
+def _split_args(a):
+    out, depth, cur = [], 0, ""
+    for ch in a:
+        if ch in "(<[":
+            depth += 1
+        elif ch in ")>]":
+            depth -= 1
+        if ch == "," and depth == 0:
+            out.append(cur.strip())
+            cur = ""
+        else:
+            cur += ch
+    if cur.strip():
+        out.append(cur.strip())
+    return [re.sub(r"\s+", " ", x) for x in out]
+
+
+class Dispatch:
+    def __init__(self, fname, hname):
+        self.fname, self.hname = fname, hname
+        self.sigs = {}      # callee -> (kind, arg types)
+        self.asserts = []
+
+    def ident(self, x):
+        return "end_" if x == "end" else x
+
+    def num(self, e):
+        e = e.strip()
+        if re.fullmatch(r"\d+", e):
+            return e, "Nat"
+        if e in ("true", "false"):
+            return e, "Bool"
+        if re.fullmatch(self.hname + r"\.len\(\)", e):
+            return "hlen", "Nat"
+        if re.fullmatch(r"[a-z_]+", e):
+            return self.ident(e), "Nat"
+        m = re.fullmatch(r"([a-z_]+) ([+-]) (\w+)", e)
+        if m:
+            r, _ = self.num(m.group(3))
+            return f"({self.ident(m.group(1))} {m.group(2)} {r})", "Nat"
+        raise TranslateError(f"{self.fname}: argument {e!r}")
+
+    def cond(self, c):
+        c = re.sub(r"\s+", " ", c.strip())
+        h = self.hname
+        if re.fullmatch(r"needle_\.len\(\) > " + h + r"\.len\(\)", c):
+            return "nlen > hlen"
+        if c == "needle_.is_empty()":
+            return "nlen == 0"
+        if re.fullmatch(r"needle_\.len\(\) == " + h + r"\.len\(\)", c):
+            return "nlen == hlen"
+        m = re.fullmatch(r"needle_\.len\(\) == ([a-z_]+) - ([a-z_]+)", c)
+        if m:
+            return f"nlen == {self.ident(m.group(1))} - {self.ident(m.group(2))}"
+        raise TranslateError(f"{self.fname}: condition {c!r}")
+
+    def call(self, e, kind):
+        """`self.f::<..>(args)` -> Lean application of the callback; kind in R (Option<u16>), S (u16), T<k> (Option of a k-tuple)"""
+        e = e.strip()
+        m = re.match(r"self\s*\.\s*(\w+)\s*(::<[^>]*>)?\s*\(", e, re.S)
+        if not m or _close(e, m.end() - 1, "(", ")") != len(e) - 1:
+            raise TranslateError(f"{self.fname}: call {e!r}")
+        args = _split_args(e[m.end():-1])
+        if len(args) < 2 or args[0] not in DISPATCH_NON_NUMERIC or args[1] not in DISPATCH_NON_NUMERIC:
+            raise TranslateError(f"{self.fname}: {m.group(1)} is not called on (haystack, needle, ..)")
+        nums = [self.num(a) for a in args[2:] if a not in DISPATCH_NON_NUMERIC]
+        sig = (kind, tuple(t for _, t in nums))
+        if self.sigs.setdefault(m.group(1), sig) != sig:
+            raise TranslateError(f"{self.fname}: {m.group(1)} is used with two different shapes")
+        return "(" + " ".join([f"c.{m.group(1)}"] + [a for a, _ in nums]) + ")" if nums else f"c.{m.group(1)}"
+
+    def expr(self, e, env):
+        e = e.strip()
+        if e == "None":
+            return "c.none"
+        m = re.fullmatch(r"Some\((.*)\)", e, re.S)
+        if m:
+            inner = m.group(1).strip()
+            if inner == "0":
+                return "(c.some c.zero)"
+            if inner in env:
+                return f"(c.some {env[inner]})"
+            return f"(c.some {self.call(inner, 'S')})"
+        return self.call(e, "R")
+
+    def block(self, s, env):
+        s = s.strip()
+        if not s:
+            raise TranslateError(f"{self.fname}: a block falls through")
+        m = re.match(r"if let &\[needle\] = needle \{", s)
+        m2 = None if m else re.match(r"if ([^{]+?) \{", s)
+        if m or m2:
+            mm = m or m2
+            j = _close(s, mm.end() - 1)
+            inner = s[mm.end():j]
+            if not re.search(r"\breturn\b[^;]*;\s*$", inner, re.S):
+                raise TranslateError(f"{self.fname}: an `if` block does not end in `return`")
+            if s[j + 1:].lstrip().startswith("else"):
+                raise TranslateError(f"{self.fname}: unexpected `else`")
+            c = "nlen == 1" if m else self.cond(m2.group(1))
+            return f"(if {c} then {self.block(inner, env)} else {self.block(s[j + 1:], env)})"
+        m = re.match(r"assert!\s*\(", s)
+        if m:
+            j = _close(s, m.end() - 1, "(", ")")
+            self.asserts.append(re.sub(r"\s+", " ", s[m.end():j].strip()))
+            rest = s[j + 1:].lstrip()
+            if not rest.startswith(";"):
+                raise TranslateError(f"{self.fname}: assert! without `;`")
+            return self.block(rest[1:], env)
+        m = re.match(r"let \(([^)]*)\) = (self\s*\.[^;]*?)\?;", s, re.S)
+        if m:
+            names = [x.strip() for x in m.group(1).split(",")]
+            for x in names:
+                if not re.fullmatch(r"_|[a-z_]+", x):
+                    raise TranslateError(f"{self.fname}: pattern {m.group(1)!r}")
+            callee = self.call(m.group(2), f"T{len(names)}")
+            pat = ", ".join(self.ident(x) for x in names)
+            return f"(match {callee} with | none => c.none | some ({pat}) => {self.block(s[m.end():], env)})"
+        m = re.match(r"let ([a-z_]+) = (self\s*\.[^;]*);", s, re.S)
+        if m:
+            env = dict(env)
+            env[m.group(1)] = self.call(m.group(2), "S")
+            return self.block(s[m.end():], env)
+        m = re.match(r"return\b([^;]*);", s, re.S)
+        if m:
+            if s[m.end():].strip():
+                raise TranslateError(f"{self.fname}: code after `return`")
+            return self.expr(m.group(1), env)
+        m = re.match(r"match \((\w+), (\w+)\) \{", s)
+        if m:
+            if (m.group(1), m.group(2)) != (self.hname, "needle_"):
+                raise TranslateError(f"{self.fname}: match on {m.group(0)!r}")
+            j = _close(s, m.end() - 1)
+            if s[j + 1:].strip():
+                raise TranslateError(f"{self.fname}: code after the representation match")
+            body, arms = s[m.end():j].strip(), {}
+            while body:
+                am = re.match(r"\(Utf32Str::(Ascii|Unicode)\((\w+)\), Utf32Str::(Ascii|Unicode)\((\w+)\)\) => \{", body)
+                if not am:
+                    raise TranslateError(f"{self.fname}: match arm {body[:60]!r}")
+                k = _close(body, am.end() - 1)
+                key = (am.group(1) == "Ascii", am.group(3) == "Ascii")
+                if key in arms:
+                    raise TranslateError(f"{self.fname}: duplicate match arm")
+                arms[key] = self.block(body[am.end():k], env)
+                body = body[k + 1:].lstrip().lstrip(",").strip()
+            if len(arms) != 4:
+                raise TranslateError(f"{self.fname}: expected the four representation pairs")
+            b = lambda x: "true" if x else "false"
+            return "(match hAscii, nAscii with" + "".join(
+                f"\n    | {b(k[0])}, {b(k[1])} => {arms[k]}" for k in [(True, True), (True, False), (False, True), (False, False)]) + ")"
+        if ";" in s:
+            raise TranslateError(f"{self.fname}: statement {s[:60]!r}")
+        return self.expr(s, env)
+
+
+def gen_dispatch():
+    """matcher/src/lib.rs: fuzzy_matcher_impl, fuzzy_match_greedy_impl, substring_match_impl — the length guards, the representation
+    match, the one-character case, the prefilter call and its `?`, the contiguous shortcut and the window arguments of every callee
+    (C01, C02, C03, C04, C05)"""
+    src = strip_comments(read("matcher/src/lib.rs"))
+    bodies = fn_bodies(src)
+    fns, sigs, asserts = [], {}, {}
+    for fname in ["fuzzy_matcher_impl", "fuzzy_match_greedy_impl", "substring_match_impl"]:
+        if len(bodies.get(fname, [])) != 1:
+            raise TranslateError(f"{fname} not found exactly once in matcher/src/lib.rs")
+        body = bodies[fname][0].strip()
+        hm = re.search(r"fn " + fname + r"<const INDICES: bool>\(\s*&mut self,\s*(\w+): Utf32Str<'_>,\s*needle_: Utf32Str<'_>,\s*"
+                       r"indices: &mut Vec<u32>,\s*\) -> Option<u16>", src)
+        if not hm:
+            raise TranslateError(f"{fname}: unexpected signature")
+        d = Dispatch(fname, hm.group(1))
+        term = d.block(body[1:-1], {})
+        for k, v in d.sigs.items():
+            if sigs.setdefault(k, v) != v:
+                raise TranslateError(f"{k} is used with two different shapes")
+        asserts[fname] = d.asserts
+        fns.append((fname, term))
+
+    def ty(sig):
+        kind, args = sig
+        res = {"R": "R", "S": "S"}.get(kind) or ("Option (" + " × ".join(["Nat"] * int(kind[1:])) + ")")
+        return " → ".join(list(args) + [res])
+    out = ["/- GENERATED by translator/translate.py from matcher/src/lib.rs (fuzzy_matcher_impl, fuzzy_match_greedy_impl, substring_match_impl)"
+           " — do not edit -/",
+           "namespace NucleoVerif.Gen.Dispatch", "",
+           "/-- the routines the dispatch calls, by the name they have in the source.  `R` is `Option<u16>` (with the index vector), `S` is `u16`;",
+           "the haystack, needle and index-vector arguments are fixed by the caller and left out, the window arguments are kept in order. -/",
+           "structure Calls (S R : Type) where", "  none : R", "  some : S → R", "  zero : S"]
+    for k in sorted(sigs):
+        out.append(f"  {k} : {ty(sigs[k])}")
+    out.append("")
+    for fname, term in fns:
+        out.append(f"/-- `Matcher::{fname}`; assertions skipped: " + "; ".join(f"`{a}`" for a in asserts[fname]) + " -/")
+        out.append(f"def {fname} {{S R : Type}} (c : Calls S R) (hlen nlen : Nat) (hAscii nAscii : Bool) : R :=")
+        out.append("  " + term)
+        out.append("")
+    out.append("end NucleoVerif.Gen.Dispatch")
+    return "\n".join(out) + "\n"
+
+
+GENERATORS["Dispatch.lean"] = gen_dispatch
+
+
 def rust_struct_fields(src, name):
     m = re.search(r"struct\s+%s\s*\{(.*?)\}" % name, src, re.S)
     if m:
